@@ -52,9 +52,14 @@ Definition shipper_upload_expected : list (string * string) :=
   [("s.dir.RemoveAll", "updir"); ("s.dir.MkdirAll", "updir"); ("s.dir.RemoveAll", "updir");
    ("hardlinkBlock", "dir"); ("s.labels", ""); ("meta.WriteToDir", "absUpdir"); ("block.Upload", "absUpdir")]%string.
 
+(* the external labels are read at upload time: New stores the owner's callback itself in
+   Shipper.labels and Shipper.upload calls it (so [c_lbl], the labels current at the sync, is
+   what goes into the uploaded meta.json) *)
 Definition sync_shape_ok : bool :=
   list_eqb ev_eqb sync_skeleton sync_skeleton_expected
-  && list_eqb ev_eqb shipper_upload_calls shipper_upload_expected.
+  && list_eqb ev_eqb shipper_upload_calls shipper_upload_expected
+  && String.eqb new_labels_field "options.lbls"
+  && String.eqb upload_lset_rhs "s.labels()".
 
 Definition upload_phases : option (list uphase) :=
   if sync_shape_ok then all_some (map cls_upload upload_calls) else None.
